@@ -218,8 +218,9 @@ check("C02",
       passes=[dict(name="C02", src=["harness/C02.cpp"], shared=ZOO, deps=ZOO_DEPS, variant="fast", shards={"quick": 12, "thorough": 12})],
       rule="the complete product factory row (one per factory overload of form_factory, attr_factory, capture_spec_factory, "
            "type_factory, name_factory, expr_factory, dir_factory, stmt_factory, Lexicon, Scope/Region/Udt declare_*, Enum, Class, Block, "
-           "Parameter_list, Mapping, Module) x 12 operand rotations x optional parts supplied / not supplied x 3 histories (fresh Lexicon; "
-           "after 1000 unrelated constructions; after the whole table was built once); each documented accessor (primitive and named "
+           "Parameter_list, Mapping, Module) x 12 operand rotations x optional parts supplied / not supplied x 4 histories (fresh Lexicon; "
+           "after 1000 unrelated constructions; after the whole table was built once; every node re-read after the table was rebuilt "
+           "11 times with all other rotations in units of their own on the same Lexicon); each documented accessor (primitive and named "
            "alias) must return exactly the argument given (identity for nodes, value for enumerators/qualifiers/positions/strings), "
            "unsupplied optional parts read as absent or refuse with logic_error, settable links read back after being set. "
            "distinct_nontrivial = distinct row variants built.",
@@ -235,7 +236,8 @@ check("C09",
       passes=[dict(name="C09", src=["harness/C09.cpp"], shared=ZOO, deps=ZOO_DEPS, variant="fast", shards={"quick": 12, "thorough": 16})],
       rule="(1) every factory row x 12 operand rotations x type supplied / not supplied against the row's type rule: fixed "
            "(void, bool, typename, class/union/enum/namespace, decltype(nullptr)), given, absent (logic_error), borrowed (same node as the "
-           "designated sub-node's type, or both refuse with logic_error); (2) EVERY addition sequence of length <= 5 (quick) / <= 7 "
+           "designated sub-node's type, or both refuse with logic_error), and type() of every node re-read after the table was rebuilt "
+           "with all 11 other rotations on the same Lexicon; (2) EVERY addition sequence of length <= 5 (quick) / <= 7 "
            "(thorough) over 3 element types for heterogeneous scopes (3 declaration kinds), parameter lists, expression lists, "
            "enumerations, base lists: the Product obtained BEFORE the additions has exactly the current elements' types after each one.",
       text="Complete enumeration of the factory table against per-row type rules, plus all addition sequences up to the "
